@@ -1,5 +1,6 @@
 //! vcheck — bounded exhaustive exploration of keepsimple1/mdns-sd (see /verif/DESIGN.md).
 mod c01;
+mod c02;
 mod fw;
 mod indep;
 mod sim;
@@ -16,6 +17,7 @@ fn main() {
     std::env::set_var("VERIF_TIER", tier);
     let code = match id {
         "C01" => c01::check(tier),
+        "C02" => c02::check(tier),
         _ => {
             eprintln!("unknown check {id}");
             2
